@@ -79,7 +79,18 @@ FUNCS = {
 }
 ORDER = ["record", "select", "pop", "delitem", "stream", "st_register", "st_compile", "ms_compile", "ms_register"]
 POP_DEFAULT = 0            # `def pop(self, index=0)`: the model's OPop None is pop(0)
-BUILTINS = ("len", "isinstance", "dict", "list", "tuple", "sorted", "reversed", "range", "slice", "super", "partial")
+BUILTINS = ("len", "isinstance", "dict", "list", "tuple", "sorted", "reversed", "range", "slice", "super", "partial",
+            "property", "defaultdict", "object")
+# what the classes may define besides the translated methods: anything else that could change the meaning of
+# len(self) / iteration / self.append / attribute access / the dict protocol makes the translator refuse the class
+MEMBERS = {"Logbook": ("__init__", "record", "select", "stream", "__delitem__", "pop", "__txt__", "__str__"),
+           "Statistics": ("__init__", "register", "compile"),
+           "MultiStatistics": ("compile", "fields", "register")}
+INITS = {
+    "Logbook": ("self", [], ["self.buffindex = 0", "self.chapters = defaultdict(Logbook)", "self.columns_len = None",
+                             "self.header = None", "self.log_header = True"]),
+    "Statistics": ("self, key=identity", ["identity"], ["self.key = key", "self.functions = dict()", "self.fields = []"]),
+}
 
 
 def is_list(t):
@@ -918,7 +929,8 @@ def module_ok(tree):
         if isinstance(n, ast.ImportFrom):
             for al in n.names:
                 nm = al.asname or al.name
-                if nm in BUILTINS and not (nm == "partial" and n.module == "functools" and al.name == "partial"):
+                if nm in BUILTINS and not (nm == "partial" and n.module == "functools" and al.name == "partial") \
+                        and not (nm == "defaultdict" and n.module == "collections" and al.name == "defaultdict"):
                     refuse(n, "module rebinds %s" % nm)
                 if nm == "*":
                     refuse(n, "star import")
@@ -932,6 +944,40 @@ def module_ok(tree):
 
 
 BASES = {"Logbook": ["list"], "Statistics": ["object"], "MultiStatistics": ["dict"]}
+
+
+def check_class(c, cls, tree):
+    """the class defines what the signature table and the run-time vocabulary assume, and nothing that could change the
+    meaning of the protocol methods the translated code relies on"""
+    if [b.id if isinstance(b, ast.Name) else "?" for b in c.bases] != BASES[cls] or c.keywords or c.decorator_list:
+        refuse(c, "bases / decorators of %s" % cls)
+    for n in c.body:
+        if isinstance(n, ast.Expr) and isinstance(n.value, ast.Constant) and isinstance(n.value.value, str):
+            continue
+        if isinstance(n, ast.Pass):
+            continue
+        if not isinstance(n, ast.FunctionDef):
+            refuse(n, "class member of %s that is not a method" % cls)
+        if n.name not in MEMBERS[cls] and (n.name.startswith("__") or not n.name.startswith("_")):
+            refuse(n, "%s defines %s (only private helpers may be added)" % (cls, n.name))
+    if cls in INITS:
+        sig, _, want = INITS[cls]
+        fns = [n for n in c.body if isinstance(n, ast.FunctionDef) and n.name == "__init__"]
+        if len(fns) != 1 or fns[0].decorator_list:
+            refuse(c, "%s.__init__" % cls)
+        got = [ast.unparse(n) for n in fns[0].body
+               if not (isinstance(n, ast.Expr) and isinstance(n.value, ast.Constant) and isinstance(n.value.value, str))]
+        if ast.unparse(fns[0].args) != sig or got != want:
+            refuse(fns[0], "%s.__init__ differs from the initial state of the model" % cls)
+    # nothing at module level may patch the class afterwards
+    for n in tree.body:
+        if isinstance(n, (ast.ClassDef, ast.FunctionDef, ast.Import, ast.ImportFrom)):
+            continue
+        if isinstance(n, ast.If) and ast.unparse(n.test) == "__name__ == '__main__'":
+            continue
+        for w in ast.walk(n):
+            if isinstance(w, ast.Name) and w.id in (cls, "setattr", "delattr", "globals", "vars"):
+                refuse(n, "module-level statement that mentions %s" % w.id)
 
 
 def translate_source(text, origin="deap/tools/support.py", force_refuse=()):
@@ -964,8 +1010,7 @@ def translate_source(text, origin="deap/tools/support.py", force_refuse=()):
             c = classes.get(cls)
             if c is None:
                 refuse("ClassDef", "class %s is not defined" % cls)
-            if [b.id if isinstance(b, ast.Name) else "?" for b in c.bases] != BASES[cls] or c.keywords or c.decorator_list:
-                refuse(c, "bases of %s" % cls)
+            check_class(c, cls, tree)
             fns = [n for n in c.body if isinstance(n, ast.FunctionDef) and n.name == meth]
             if len(fns) != 1:
                 refuse(c, "%s.%s is defined %d times" % (cls, meth, len(fns)))
